@@ -1087,6 +1087,33 @@ class Geodesic(Sub):
             _note(rec, "red/tol", abs(float(r) - want) / rtol)
             rec.check(abs(float(r) - want) <= rtol, "geodesic:reduction:" + red,
                       "reduction=%r gives %r but the %s of the unreduced losses is %r" % (red, float(r), red, want))
+        # broadcasting batches: ONE element against all (both argument orders) - the loss is defined per broadcast pair and the
+        # reductions run over the broadcast batch, not over the batch of either argument (seed C19g)
+        if cnt > 1:
+            dX, dY = X.shape[-1], Y.shape[-1]
+            X1 = pp.LieTensor(X.tensor().reshape(cnt, dX)[:1].clone(), ltype=X.ltype)          # lshape (1,)
+            Yf = pp.LieTensor(Y.tensor().reshape(cnt, dY).clone(), ltype=Y.ltype)              # lshape (cnt,)
+            Rx0, px0 = _rot_ref(lx, xin[0])
+            refb, tolb = np.zeros(cnt), np.zeros(cnt)
+            for jj in range(cnt):
+                Ryj, pyj = _rot_ref(ly, yin[jj])
+                refb[jj] = R.rot_angle(Rx0 @ Ryj.T)
+                tolb[jj] = 32 * eps * (1.0 + px0 + pyj)
+            with rec.sut("geodesic_loss(broadcast)"):
+                outs = [(f(X1, Yf, rr), f(Yf, X1, rr)) for rr in ("none", "mean", "sum")]
+            rec.label("broadcast_one_vs_all")
+            for rr, (o1, o2) in zip(("none", "mean", "sum"), outs):
+                for o in (o1, o2):
+                    if rr == "none":
+                        ok = isinstance(o, torch.Tensor) and tuple(o.shape) == (cnt,) and bool(np.all(np.abs(tu.npy(o) - refb) <= tolb))
+                        rec.check(ok, "geodesic:broadcast:none", lambda: "one element against %d: reduction='none' gives %s, the angles are %s"
+                                  % (cnt, tu.npy(o).tolist() if isinstance(o, torch.Tensor) else o, refb.tolist()))
+                    else:
+                        wantb = float(refb.sum()) / (cnt if rr == "mean" else 1)
+                        tb = float(tolb.sum()) / (cnt if rr == "mean" else 1) + 4 * eps * cnt * abs(wantb)
+                        rec.check(isinstance(o, torch.Tensor) and o.dim() == 0 and abs(float(o) - wantb) <= tb, "geodesic:broadcast:" + rr,
+                                  lambda: "one element against %d: reduction=%r gives %r, the %s of the %d pairwise angles is %r"
+                                  % (cnt, rr, float(o) if isinstance(o, torch.Tensor) and o.dim() == 0 else o, rr, cnt, wantb))
 
     def simplify(self, case):
         cnt = len(case["x"])
